@@ -63,7 +63,7 @@ def deferred_adders(facts, adt):
     if not r['deferred']:
         return out
     for b in adt_bodies(facts, adt):
-        if facts.view in ('i', 'is') and b.vis not in ('pub', None) and b.impl_trait is None:
+        if facts.view in ('i', 'is', 'p', 'ps') and b.vis not in ('pub', None) and b.impl_trait is None:
             continue   # a private helper: in this view it is judged as part of each caller it is inlined into
         it = interp(facts, b)
         sites = direct_adding_sites(facts, it, r['deferred'])
@@ -94,7 +94,7 @@ def rm_routines(facts, adt):
         it0 = interp(facts, b)
         if any(is_rm_call(facts, it0, bb, r) for bb in it0.calls):
             continue
-        bi = inlined(facts, b, t1=True, t2=facts.view in ('s', 'is'))
+        bi = inlined(facts, b, t1=True, t2=facts.view in ('s', 'is', 'ps'))
         iti = interp(facts, bi)
         sites = direct_adding_sites(facts, iti, r['deferred'])
         if sites:
